@@ -34,7 +34,7 @@ def run(out, drv, info):
                        'a file version stands for its bytes: that restoring a recorded version yields exactly those bytes and that listed sizes are true sizes is C01',
                        'bytes_to_human rounding is presentation: sizes are compared after parsing to (2-decimal value, unit)',
                        'WF: every stored object is what its name says (C04); CPython re / datetime / json modelled, not verified']
-    n_worlds, n_ops = (80, 12) if quick else (1600, 16)
+    n_worlds, n_ops = (160, 12) if quick else (1600, 16)
     logs = A.run_worlds(out, drv, 'C15', n_worlds, n_ops, 'c15', 'c15')
     tot = {}
     for log in logs:
@@ -66,7 +66,10 @@ def replay(path, drv):
     d = json.load(open(path))
     rp = d.get('replay', d)
     if rp.get('kind') == 'world' and 'idx' in rp:
-        log = A.run_world((rp.get('seed', 0), rp['idx'], rp.get('label', 'C15'), rp.get('n_ops', 12), rp.get('mode', 'c15')))
+        log = A.run_tasks(A.run_world, [(rp.get('seed', 0), rp['idx'], rp.get('label', 'C15'), rp.get('n_ops', 12), rp.get('mode', 'c15'))], 180)[0]   # a child process: a hanging command must not block the replay
+        if 'steps' not in log:
+            print('the world did not finish:', log)
+            return 1
         print('cfg', log['cfg'])
         print('ops', [f'{st["user"]}:{st["kind"]}' + ('!' + st['error'] if st.get('error') else '') for st in log['steps']])
         bad = 0
